@@ -1639,7 +1639,9 @@ func (c *DnsController) __updateDnsCacheDeadline(cacheKey string, host string, d
 	}
 
 	now := time.Now()
-	deadline, originalDeadline := deadlineFunc(now, host)
+	// DNS names are case-insensitive and upstreams echo the client's spelling
+	// (0x20 mixed case), so fixed_domain_ttl is looked up by the lower-cased name.
+	deadline, originalDeadline := deadlineFunc(now, strings.ToLower(host))
 
 	if cacheKey == "" {
 		cacheKey = c.cacheKey(fqdn, dnsTyp)
